@@ -1564,9 +1564,11 @@ ASMJIT_FAVOR_SPEED Error BaseRAPass::bin_pack(RegGroup group) noexcept {
       else if (parent_reg->has_home_reg_id()) {
         uint32_t consecutive_id = parent_reg->home_reg_id() + 1;
 
-        // NOTE: We don't support wrapping. If this goes beyond all allocable registers there is something wrong.
+        // NOTE: We don't support wrapping. If the register cannot follow its parent (a register can be part of multiple
+        // sequences having a different parent in each) it's not a failure - the home register is just a hint, so pack
+        // it as any other register and let the local allocator to move it when necessary.
         if (consecutive_id > 31 || !Support::bit_test(available_regs, consecutive_id)) {
-          return make_error(Error::kConsecutiveRegsAllocation);
+          continue;
         }
 
         work_reg->set_hint_reg_id(consecutive_id);
